@@ -1,6 +1,8 @@
 mod daemon;
 mod build;
+mod evalseq;
 mod fakecli;
+mod fakeirrd;
 mod frame;
 mod fuzz;
 mod hello;
@@ -54,6 +56,7 @@ fn main() {
         "plan" => plan::main(&opts),
         "build" => build::main(&opts),
         "logs" => logs::main(&opts),
+        "evalseq" => evalseq::main(&opts),
         _ => {
             eprintln!("unknown op {op}");
             std::process::exit(2);
